@@ -959,10 +959,13 @@ def run(ctx) -> dict:
             'checked for major=union(minors) and partition, (e) block disjointness, (f) table '
             'ordering. Operator purity of the set classes is a syntactic rule on the dunders.',
         'not_decided':
-            'Correctness of the interval merging in UnicodeSubset.add/discard under operation '
-            'sequences (a statement over histories of runtime states); category equality for '
-            'Unicode versions for which no interpreter is installed (13.0.0, 15.1.0, 16.0.0, '
-            '17.0.0 get (a),(c)-(f) only).',
+            'Decided for the set classes: purity of the non-in-place operators, no aliasing of '
+            'shared tables, the representation laws of CharacterClass (union of complements, '
+            'complement, removal, unknown blocks), half-open range tops, and that add() stores no '
+            'range touching its successor (3 known findings: it does). Not decided: correctness of '
+            'interval merging under arbitrary operation sequences (a statement over histories of '
+            'runtime states); category equality for Unicode versions for which no interpreter is '
+            'installed (13.0.0, 15.1.0, 16.0.0, 17.0.0 get (a),(c)-(f) only).',
         'assumptions': ['CPython unicodedata is the independent oracle',
                         'exhaustive over code points and categories for the oracle versions'],
     }
